@@ -260,7 +260,7 @@ Proof.
 Qed.
 
 (* A * c *)
-Lemma mul_c_sem a c o : wf a -> mul_c a c = Ok o ->
+Lemma mul_c_sem a c rl o : wf a -> mul_c a c rl = Ok o ->
   sem o (odom a) (oran a) (fun x => eval a (vscal c x)).
 Proof.
   intros W E. unfold Model.mul_c in E. destruct (ofunc a) eqn:F.
@@ -276,9 +276,10 @@ Proof.
         eapply sem_ext; [apply (mkLScal_sem true a c o W (fun _ => F) E)|].
         intros x Hx. cbn beta. symmetry. apply (olin_hom a W L c x Hx).
       * unfold mkFRScal in E. rewrite F in E. apply (mkRScal_sem true a c o W (fun _ => F) E).
-  - assert (Gen : (if olin a then rmul_c a c else mkRScal false a c) = Ok o ->
+  - assert (Gen : (if olin a && (rl || negb (v_real_shortcut vt)) then rmul_c a c else mkRScal false a c) = Ok o ->
                   sem o (odom a) (oran a) (fun x => eval a (vscal c x))).
-    { intros E'. destruct (olin a) eqn:L.
+    { intros E'. destruct (olin a) eqn:L; [destruct (rl || negb (v_real_shortcut vt))|]; cbn [andb] in E';
+        [| apply (mkRScal_sem false a c o W ltac:(discriminate) E') | ].
       - eapply sem_ext; [eapply rmul_c_sem; eauto|].
         intros x Hx. cbn beta. symmetry. apply (olin_hom a W L c x Hx).
       - apply (mkRScal_sem false a c o W ltac:(discriminate) E'). }
@@ -427,7 +428,7 @@ Fixpoint sleaves_ok (s : sexpr) : Prop :=
   | SConst d _ | SZero d => exists n, d = SV n
   | SAdd a b | SSub a b | SMul a b | SPtw a b => sleaves_ok a /\ sleaves_ok b
   | SNeg a | SPow a _ | SAddV a _ | SVAdd _ a | SSubV a _ | SVSub _ a | SMulV a _ | SVMul _ a
-  | SAddC a _ | SCAdd _ a | SSubC a _ | SCSub _ a | SMulC a _ | SCMul _ a | SDivC a _ => sleaves_ok a
+  | SAddC a _ | SCAdd _ a | SSubC a _ | SCSub _ a | SMulC a _ _ | SCMul _ a | SDivC a _ _ => sleaves_ok a
   end.
 
 Lemma iter_ext (f g : vec -> vec) n k :
@@ -533,7 +534,7 @@ Proof.
     sem_split; auto; try congruence.
     intros x Hx. rewrite Ev, En, Ea by congruence. apply (map_addc_vscal_neg1 Rth).
   - (* A * c *) unbind E. destruct (IHa _ L eq_refl) as (Wa & Da & Ra & Ea).
-    destruct (mul_c_sem _ _ _ Wa E) as (W & D & R & Ev).
+    destruct (mul_c_sem _ _ _ _ Wa E) as (W & D & R & Ev).
     sem_split; auto; try congruence.
     intros x Hx. rewrite Ev by congruence. apply Ea. rewrite vscal_length. assumption.
   - (* c * A *) unbind E. destruct (IHa _ L eq_refl) as (Wa & Da & Ra & Ea).
@@ -542,7 +543,7 @@ Proof.
     intros x Hx. rewrite Ev, Ea by congruence. reflexivity.
   - (* A / c *) unbind E. destruct (c =? nzero) eqn:Zc; [discriminate|].
     destruct (IHa _ L eq_refl) as (Wa & Da & Ra & Ea).
-    destruct (mul_c_sem _ _ _ Wa E) as (W & D & R & Ev).
+    destruct (mul_c_sem _ _ _ _ Wa E) as (W & D & R & Ev).
     sem_split; auto; try congruence.
     intros x Hx. rewrite Ev by congruence.
     replace (map (fun u => u / c) x) with (vscal (none_ / c) x)
@@ -598,7 +599,7 @@ Proof.
   - rewrite (mkLScal_lin _ _ _ _ E). assumption.
 Qed.
 
-Lemma mul_c_lin a c o : wf a -> mul_c a c = Ok o -> olin a = true -> olin o = true.
+Lemma mul_c_lin a c rl o : wf a -> mul_c a c rl = Ok o -> olin a = true -> olin o = true.
 Proof.
   unfold Model.mul_c, mkFLScal, mkFRScal. intros W E La. rewrite La in E. destruct (ofunc a) eqn:F.
   - destruct (c =? nzero).
@@ -611,7 +612,12 @@ Proof.
       cbn [vscal map] in Hz.
       inversion Hz as [Hz']. rewrite Hz'. replace (nzero * _) with (@nzero T N) by ring. apply Heqb_refl.
     + rewrite (mkLScal_lin _ _ _ _ E). assumption.
-  - destruct a; try (apply (rmul_c_lin _ _ _ E La)).
+  - cbn [andb] in E.
+    assert (G : forall a0 : oexpr, olin a0 = true ->
+              (if rl || negb (v_real_shortcut vt) then rmul_c a0 c else mkRScal false a0 c) = Ok o -> olin o = true).
+    { intros a0 L0 E0. destruct (rl || negb (v_real_shortcut vt));
+        [apply (rmul_c_lin _ _ _ E0 L0) | rewrite (mkRScal_lin _ _ _ _ E0); exact L0]. }
+    destruct a; try (apply (G _ La E)).
     rewrite (mkRScal_lin _ _ _ _ E). exact La.
 Qed.
 
@@ -648,7 +654,7 @@ Fixpoint no_sf_rvec (s : sexpr) : Prop :=
   | SAdd a b | SSub a b | SMul a b | SPtw a b => no_sf_rvec a /\ no_sf_rvec b
   | SMulV a _ => sran a <> SF /\ no_sf_rvec a
   | SNeg a | SPow a _ | SAddV a _ | SVAdd _ a | SSubV a _ | SVSub _ a | SVMul _ a
-  | SAddC a _ | SCAdd _ a | SSubC a _ | SCSub _ a | SMulC a _ | SCMul _ a | SDivC a _ => no_sf_rvec a
+  | SAddC a _ | SCAdd _ a | SSubC a _ | SCSub _ a | SMulC a _ _ | SCMul _ a | SDivC a _ _ => no_sf_rvec a
   end.
 
 (* [rvec_ok]: every `A * v` in s either has a vector-valued A, or the code keeps the flag *)
@@ -658,7 +664,7 @@ Fixpoint rvec_ok (s : sexpr) : Prop :=
   | SAdd a b | SSub a b | SMul a b | SPtw a b => rvec_ok a /\ rvec_ok b
   | SMulV a _ => (v_frvec_lin vt = true \/ sran a <> SF) /\ rvec_ok a
   | SNeg a | SPow a _ | SAddV a _ | SVAdd _ a | SSubV a _ | SVSub _ a | SVMul _ a
-  | SAddC a _ | SCAdd _ a | SSubC a _ | SCSub _ a | SMulC a _ | SCMul _ a | SDivC a _ => rvec_ok a
+  | SAddC a _ | SCAdd _ a | SSubC a _ | SCSub _ a | SMulC a _ _ | SCMul _ a | SDivC a _ _ => rvec_ok a
   end.
 Lemma rvec_ok_of_no_sf s : no_sf_rvec s -> rvec_ok s.
 Proof. induction s; cbn [no_sf_rvec rvec_ok]; tauto. Qed.
@@ -696,10 +702,10 @@ Proof.
     destruct (in_sp v (oran o0)); [inversion E; subst; exact Lo|].
     destruct (oran o0); [discriminate|]. inversion E; subst; exact Lo.
   - unbind E. destruct (build_sem _ _ L B) as (Wa & _).
-    apply (mul_c_lin _ _ _ Wa E (IHa _ L eq_refl NF SL)).
+    apply (mul_c_lin _ _ _ _ Wa E (IHa _ L eq_refl NF SL)).
   - unbind E. apply (rmul_c_lin _ _ _ E (IHa _ L eq_refl NF SL)).
   - unbind E. destruct (c =? nzero); [discriminate|]. destruct (build_sem _ _ L B) as (Wa & _).
-    apply (mul_c_lin _ _ _ Wa E (IHa _ L eq_refl NF SL)).
+    apply (mul_c_lin _ _ _ _ Wa E (IHa _ L eq_refl NF SL)).
 Qed.
 
 
@@ -725,13 +731,13 @@ Proof.
   - destruct (c =? nzero); intros E; [inversion E; reflexivity | apply (mkLScal_func _ _ _ _ E)].
   - apply mkLScal_func.
 Qed.
-Lemma mul_c_func (a : oexpr) c o : mul_c a c = Ok o -> ofunc o = ofunc a.
+Lemma mul_c_func (a : oexpr) c rl o : mul_c a c rl = Ok o -> ofunc o = ofunc a.
 Proof.
   unfold Model.mul_c, mkFLScal, mkFRScal. destruct (ofunc a) eqn:F.
   - destruct (c =? nzero); [intros E; inversion E; reflexivity|].
     destruct (Model.olin vt a); [apply mkLScal_func | apply mkRScal_func].
-  - assert (G : (if Model.olin vt a then rmul_c a c else mkRScal false a c) = Ok o -> ofunc o = false).
-    { destruct (Model.olin vt a); intros E; [rewrite (rmul_c_func _ _ _ E); exact F | apply (mkRScal_func _ _ _ _ E)]. }
+  - assert (G : (if Model.olin vt a && (rl || negb (v_real_shortcut vt)) then rmul_c a c else mkRScal false a c) = Ok o -> ofunc o = false).
+    { destruct (Model.olin vt a && (rl || negb (v_real_shortcut vt))); intros E; [rewrite (rmul_c_func _ _ _ E); exact F | apply (mkRScal_func _ _ _ _ E)]. }
     destruct a; try exact G. apply mkRScal_func.
 Qed.
 Lemma mkSum_func fn (a b : oexpr) o : mkSum fn a b = Ok o -> ofunc o = fn.
@@ -796,9 +802,9 @@ Proof.
   - unfold Model.add_c in E. rewrite <- (IHa _ eq_refl), <- (rmul_c_func _ _ _ B0).
     destruct (ofunc o1); [inversion E; reflexivity|].
     destruct (oran o1); [inversion E; reflexivity|]. destruct (v_vecsum_field vt); inversion E; reflexivity.
-  - rewrite (mul_c_func _ _ _ E). apply IHa; reflexivity.
+  - rewrite (mul_c_func _ _ _ _ E). apply IHa; reflexivity.
   - rewrite (rmul_c_func _ _ _ E). apply IHa; reflexivity.
-  - destruct (c =? nzero); [discriminate|]. rewrite (mul_c_func _ _ _ E). apply IHa; reflexivity.
+  - destruct (c =? nzero); [discriminate|]. rewrite (mul_c_func _ _ _ _ E). apply IHa; reflexivity.
   - unfold mkPtw in E. destruct (sp_eqb (oran o0) (oran o1)); cbn [negb] in E; [|discriminate].
     destruct (sp_eqb (odom o0) (odom o1)); cbn [negb] in E; [|discriminate]. inversion E; reflexivity.
 Qed.
@@ -868,12 +874,13 @@ Lemma rmul_c_ok (a : oexpr) c : exists o, rmul_c a c = Ok o.
 Proof.
   unfold rmul_c, mkFLScal. destruct (ofunc a); [destruct (c =? nzero); [eauto|]|]; apply mkLScal_ok.
 Qed.
-Lemma mul_c_ok (a : oexpr) c : exists o, mul_c a c = Ok o.
+Lemma mul_c_ok (a : oexpr) c rl : exists o, mul_c a c rl = Ok o.
 Proof.
   unfold Model.mul_c, mkFLScal, mkFRScal. destruct (ofunc a) eqn:F.
   - destruct (c =? nzero); [eauto|]. destruct (Model.olin vt a); [apply mkLScal_ok | apply mkRScal_ok].
-  - assert (G : exists o, (if Model.olin vt a then rmul_c a c else mkRScal false a c) = Ok o)
-      by (destruct (Model.olin vt a); [apply rmul_c_ok | apply mkRScal_ok]).
+  - assert (G : exists o, (if Model.olin vt a && (rl || negb (v_real_shortcut vt)) then rmul_c a c
+                           else mkRScal false a c) = Ok o)
+      by (destruct (Model.olin vt a && (rl || negb (v_real_shortcut vt))); [apply rmul_c_ok | apply mkRScal_ok]).
     destruct a; try exact G. apply mkRScal_ok.
 Qed.
 Lemma mkSum_ok fn (a b : oexpr) : oran a = oran b -> odom a = odom b -> exists o, mkSum fn a b = Ok o.
@@ -1061,7 +1068,7 @@ Fixpoint sleaves_pool (s : sexpr) : Prop :=
   | SConst d _ | SZero d => exists n, d = SV n
   | SAdd a b | SSub a b | SMul a b | SPtw a b => sleaves_pool a /\ sleaves_pool b
   | SNeg a | SPow a _ | SAddV a _ | SVAdd _ a | SSubV a _ | SVSub _ a | SMulV a _ | SVMul _ a
-  | SAddC a _ | SCAdd _ a | SSubC a _ | SCSub _ a | SMulC a _ | SCMul _ a | SDivC a _ => sleaves_pool a
+  | SAddC a _ | SCAdd _ a | SSubC a _ | SCSub _ a | SMulC a _ _ | SCMul _ a | SDivC a _ _ => sleaves_pool a
   end.
 Lemma sleaves_pool_ok s : sleaves_pool s -> sleaves_ok s.
 Proof.
